@@ -24,6 +24,9 @@ TINY = 1e-30
 def _grads(job, rs, shape, t):
   if job["kind"] == "grid":
     return rs.randint(job["lo"], job["hi"] + 1, size=shape).astype(np.float32)
+  if job.get("pow2"):
+    # long low-precision histories: every gradient and its square are exact in bfloat16 / float16
+    return rs.choice([0.0, 1.0, -1.0, 2.0, -2.0, 0.5, -0.5], size=shape).astype(np.float32)
   g = rs.standard_normal(shape) * job["scale"]
   mode = rs.randint(6)
   if mode == 0:                       # sparse
@@ -55,7 +58,8 @@ def handle(job):
     opt = sm3_lib.sm3(lr, beta1=job["beta1"], beta2=beta2, diagonal_epsilon=eps,
                       weight_decay=job["wd"], normalize_grads=job["normalize"])
     p = rs.standard_normal(shape).astype(np.float32)
-    params = {"w": jnp.asarray(p)}
+    pdt = jnp.dtype(job.get("pdtype", "float32"))       # parameter (and gradient) dtype
+    params = {"w": jnp.asarray(p).astype(pdt)}
     state = opt.init(params)
     upd = jax.jit(opt.update)
     exact = np.zeros(shape, np.float64)
@@ -64,7 +68,9 @@ def handle(job):
     for t in range(job["T"]):
       g = _grads(job, rs, shape, t)
       cb = int(np.asarray(state.count))
-      u, state = upd({"w": jnp.asarray(g)}, state, params)
+      gj = jnp.asarray(g).astype(pdt)
+      g = np.asarray(gj.astype(jnp.float32))            # what the optimizer was given, exactly
+      u, state = upd({"w": gj}, state, params)
       ca = int(np.asarray(state.count))
       accs = [np.asarray(a, np.float64) for a in state.stats["w"].diagonal_statistics]
       if grid:
